@@ -54,19 +54,10 @@ func (r QueryParamsRemover) RemoveFrom(value string) string {
 		return value
 	}
 
-	query, err := url.ParseQuery(value)
-	if err != nil {
-		// the query cannot be parsed as a whole (e.g. a broken escape or a semicolon in one
-		// of its settings). The parameters are then removed setting by setting and everything
-		// else is kept as it is, instead of forwarding the parameters, which had to be removed.
-		return r.removeFromRaw(value)
-	}
-
-	for _, param := range r {
-		query.Del(param)
-	}
-
-	return query.Encode()
+	// the parameters are removed setting by setting. Everything else - the order of the remaining
+	// settings and their encoding - is kept as it has been received, as re-encoding the query
+	// would change what the upstream (e.g. a signature over the query string) sees
+	return r.removeFromRaw(value)
 }
 
 func (r QueryParamsRemover) removeFromRaw(value string) string {
